@@ -74,6 +74,14 @@ func c11Nearer(a, b *big.Rat) bool {
 	if a.Cmp(b) >= 0 {
 		return false
 	}
+	// float64 squared distances below ~1e-300 underflow (gaps under 1e-150) and those above 1e300 overflow:
+	// all such records tie at 0 / +Inf in the tree's arithmetic and may come in any order
+	if bf, _ := b.Float64(); bf < 1e-290 {
+		return false
+	}
+	if af, _ := a.Float64(); af > 1e290 {
+		return false
+	}
 	lhs := new(big.Rat).Mul(a, c11TolDen)
 	rhs := new(big.Rat).Mul(b, c11TolNum)
 	return lhs.Cmp(rhs) < 0
@@ -431,8 +439,12 @@ func c11Gen(t *rapid.T, cx *h.Ctx) C11Case {
 	// Equal inputs stay equal (touching stays touching, exactly), but sums, differences and midpoints of
 	// the ordinates are no longer exact in float64.
 	if rapid.IntRange(0, 2).Draw(t, "scaled") == 0 {
-		sc := rapid.SampledFrom([]float64{0.1, 1.0 / 3, 0.7, 1e-3, 1e-7, 12345.678}).Draw(t, "scale")
+		sc := rapid.SampledFrom([]float64{0.1, 1.0 / 3, 0.7, 1e-3, 1e-7, 12345.678, 1e-170, 3e-200}).Draw(t, "scale")
 		off := rapid.SampledFrom([]float64{0, 0.1, -0.3, 1e6 + 0.1}).Draw(t, "offset")
+		if sc < 1e-100 {
+			off = 0 // tiny magnitudes: gaps whose squares underflow (completeness and exactly-once must still hold)
+			cx.Class("coords=tiny")
+		}
 		f := func(b *[4]float64) {
 			for i := range b {
 				b[i] = b[i]*sc + off
@@ -493,7 +505,29 @@ func c11Enumerate(cx *h.Ctx, yield func(C11Case)) []string {
 			}
 		}
 	}
-	return []string{"sizes 0..40 x 8 deterministic layouts x 5-7 query boxes x {range,priority,nearest} x every stop position 0..n with rotating stop kinds"}
+	// tree depths 6 and 7 (fan-out 4: 1024 and 4096 leaves are the boundaries), the sizes rapid rarely draws
+	for _, n := range []int{1023, 1024, 1025, 4095, 4096, 4097, 5000} {
+		if cx.Thorough || n%2 == 1 {
+			for li, lay := range layouts[:3] {
+				boxes := make([][4]float64, n)
+				for i := range boxes {
+					boxes[i] = lay(i, n)
+					if li == 1 { // point grid: spread over more rows
+						x, y := float64(i%97), float64(i/97)
+						boxes[i] = [4]float64{x, y, x, y}
+					}
+				}
+				b := boxes[n/2]
+				c := C11Case{Boxes: boxes, IDBase: 1}
+				for _, qb := range [][4]float64{{-1e6, -1e6, 1e6, 1e6}, b, {b[2], b[3], b[2] + 1, b[3] + 1}, {10, 0, 40, 3}} {
+					c.Queries = append(c.Queries, C11Query{Kind: "range", Box: qb, StopAt: -1}, C11Query{Kind: "priority", Box: qb, StopAt: -1}, C11Query{Kind: "nearest", Box: qb, StopAt: -1},
+						C11Query{Kind: "range", Box: qb, StopAt: n / 3, StopKind: 1 + (n+li)%7}, C11Query{Kind: "priority", Box: qb, StopAt: n / 3, StopKind: 1 + (n+li+3)%7})
+				}
+				yield(c)
+			}
+		}
+	}
+	return []string{"sizes 1023..5000 around the depth-6/7 boundaries x 3 layouts x 4 query boxes x {range,priority,nearest,stop}", "sizes 0..40 x 8 deterministic layouts x 5-7 query boxes x {range,priority,nearest} x every stop position 0..n with rotating stop kinds"}
 }
 
 func TestC11(t *testing.T) {
